@@ -591,14 +591,18 @@ double strtod(const char* s, char** end) {
     for (int g = 0; g < 20; ++g) if (!stop) { if (s[j] >= '0' && s[j] <= '9') { nz |= s[j] != '0'; ++j; ++fd; } else stop = 1; }
     if (nd + fd > 0) { i = j; nd += fd; } }
   if (nd == 0) { if (end) *end = (char*)s; return 0.0; }
+  uint64_t ev = 0;                                  /* value of the exponent part (up to 4 digits) */
   if (s[i] == 'e' || s[i] == 'E') { uint64_t j = i + 1; if (s[j] == '+' || s[j] == '-') ++j; uint64_t ed = 0; stop = 0;
-    for (int g = 0; g < 4; ++g) if (!stop) { if (s[j] >= '0' && s[j] <= '9') { ++j; ++ed; } else stop = 1; }
-    if (ed > 0) i = j; }
+    for (int g = 0; g < 4; ++g) if (!stop) { if (s[j] >= '0' && s[j] <= '9') { ev = ev * 10 + (uint64_t)(s[j] - '0'); ++j; ++ed; } else stop = 1; }
+    if (ed > 0) i = j; else ev = 0; }
   if (end) *end = (char*)s + i;
   double v = nondet_double();
   __CPROVER_assume(v == v);
   if (!nz) __CPROVER_assume(v == 0.0); else __CPROVER_assume(v >= 0.0);
+  /* ERANGE: a nonzero number of at most 20 + 20 digits with a decimal exponent beyond 400 is out of the binary64 range in either
+   * direction; below 260 it is inside; in between it depends on the digits (arbitrary here) */
   _Bool range = nondet_bool();
+  if (ev > 400) range = 1; else if (ev < 260) range = 0;
   if (range && nz) vx_errno = 34;
   return neg ? -v : v;
 }
